@@ -128,6 +128,25 @@ def newGetAddress (H : List UInt8 → List UInt8) (code : Cell) (ver : Nat) (pk 
   | none => .err "unsupported wallet version"
   | some v => address H code v pk o
 
+/-- The PUBLISHED code of every version, pinned by its representation hash (big-endian number). Written here from the
+public record of the wallet contracts — the same twelve hashes appear, independently of wallet/models.go, in the table of
+known contracts of abi/interfaces.go —; the code cells the Go library ships (`wallet.GetCodeByVer`) are compared with this
+table on every run (op `w.codehash`), so replacing a code constant by another one (even another version's) is a
+model ≠ code difference. -/
+def publishedCodeHash : Version → Nat
+  | .v1r1 => 0xa0cfc2c48aee16a271f2cfc0b7382d81756cecb1017d077faaab3bb602f6868c
+  | .v1r2 => 0xd4902fcc9fad74698fa8e353220a68da0dcf72e32bcb2eb9ee04217c17d3062c
+  | .v1r3 => 0x587cc789eff1c84f46ec3797e45fc809a14ff5ae24f1e0c7a6a99cc9dc9061ff
+  | .v2r1 => 0x5c9a5e68c108e18721a07c42f9956bfb39ad77ec6d624b60c576ec88eee65329
+  | .v2r2 => 0xfe9530d3243853083ef2ef0b4c2908c0abf6fa1c31ea243aacaa5bf8c7d753f1
+  | .v3r1 => 0xb61041a58a7980b946e8fb9e198e3c904d24799ffa36574ea4251c41a566f581
+  | .v3r2 => 0x84dafa449f98a6987789ba232358072bc0f76dc4524002a5d0918b9a75d2d599
+  | .v4r1 => 0x64dd54805522c5be8a9db59cea0105ccf0d08786ca79beb8cb79e880a8d7322d
+  | .v4r2 => 0xfeb5ff6820e2ff0d9483e7e0d62c817d846789fb4ae580c878866d959dabd5c0
+  | .v5beta => 0xf3d7ca53493deedac28b381986a849403cbac3d2c584779af081065af0ac4b93
+  | .v5r1 => 0x20834b7b72b112147e1b2fb457b84e74d1a30f04f737d4f62a668e9552d2b72f
+  | .highloadV2R2 => 0x203dd4f358adb49993129aa925cac39916b68a0e4f78d26e8f2c2b69eafa5679
+
 /-- `maxMessageNumber()` -/
 def maxMessages (v : Version) : Nat :=
   match v.family with
